@@ -12,6 +12,8 @@
     resolution ([float_to_fixed], exact, through [Prim2SF]), then multiplies
     fixed-point numbers: floor (a*b / 2^32).  `Duration / i32` is the
     truncating fixed-point division ([dur_div_int] of Time/TimeModel.v).
+    `Time + Duration` saturates at 0 and at the largest U96F32 value
+    ([time_add_dur], after the repair of F7 in /repo).
     These semantics are validated by the C18 correspondence run. *)
 From Coq Require Export Floats.
 From SV Require Export Base.Prelude Time.TimeModel.
